@@ -23,6 +23,13 @@ def dec8 (a : Nat) : Nat := (a + 255) % 256
 def dec16 (a : Nat) : Nat := (a + 65535) % 65536
 /-- uint32 `x--` -/
 def dec32 (a : Nat) : Nat := (a + 4294967295) % 4294967296
+/-- 2^32 as a constant that compiled code evaluates once (a literal ≥ 2^32 inside a function body is re-parsed
+    from its decimal string at every call) -/
+@[noinline] def two32 : Nat := 4294967296
+/-- compiled code of `dec32` uses the constant; the definition (and every proof about it) is unchanged -/
+def dec32Fast (a : Nat) : Nat := (a + (two32 - 1)) % two32
+@[csimp] theorem dec32_impl : @dec32 = @dec32Fast := by
+  funext a; simp [dec32, dec32Fast, two32]
 /-- uint16 `a - b` -/
 def sub16 (a b : Nat) : Nat := (a % 65536 + 65536 - b % 65536) % 65536
 /-- uint8 `x++` -/
